@@ -168,21 +168,21 @@ impl ToMysqlValue for i8 {
                 if signed {
                     w.write_i64::<LittleEndian>(i64::from(*self))
                 } else {
-                    w.write_u64::<LittleEndian>(*self as u64)
+                    like_try_into!(self, i8 => u64, w, write_u64, c)
                 }
             }
             ColumnType::MYSQL_TYPE_LONG | ColumnType::MYSQL_TYPE_INT24 => {
                 if signed {
                     w.write_i32::<LittleEndian>(i32::from(*self))
                 } else {
-                    w.write_u32::<LittleEndian>(*self as u32)
+                    like_try_into!(self, i8 => u32, w, write_u32, c)
                 }
             }
             ColumnType::MYSQL_TYPE_SHORT | ColumnType::MYSQL_TYPE_YEAR => {
                 if signed {
                     w.write_i16::<LittleEndian>(i16::from(*self))
                 } else {
-                    w.write_u16::<LittleEndian>(*self as u16)
+                    like_try_into!(self, i8 => u16, w, write_u16, c)
                 }
             }
             ColumnType::MYSQL_TYPE_TINY => {
@@ -231,14 +231,14 @@ impl ToMysqlValue for i16 {
                 if signed {
                     w.write_i64::<LittleEndian>(i64::from(*self))
                 } else {
-                    w.write_u64::<LittleEndian>(*self as u64)
+                    like_try_into!(self, i16 => u64, w, write_u64, c)
                 }
             }
             ColumnType::MYSQL_TYPE_LONG | ColumnType::MYSQL_TYPE_INT24 => {
                 if signed {
                     w.write_i32::<LittleEndian>(i32::from(*self))
                 } else {
-                    w.write_u32::<LittleEndian>(*self as u32)
+                    like_try_into!(self, i16 => u32, w, write_u32, c)
                 }
             }
             ColumnType::MYSQL_TYPE_SHORT | ColumnType::MYSQL_TYPE_YEAR => {
@@ -280,7 +280,7 @@ impl ToMysqlValue for i32 {
                 if signed {
                     w.write_i64::<LittleEndian>(i64::from(*self))
                 } else {
-                    w.write_u64::<LittleEndian>(*self as u64)
+                    like_try_into!(self, i32 => u64, w, write_u64, c)
                 }
             }
             ColumnType::MYSQL_TYPE_LONG | ColumnType::MYSQL_TYPE_INT24 => {
